@@ -228,7 +228,11 @@ func (c *checkSchema) ensureShortcutKeysAreValid(node *ischema.ObjectNode) error
 		if err != nil {
 			return lexeme.NewError(v.Lex, err)
 		}
-		actualType := actualRootType(s, c.rootSchema)
+		actualType, err := actualRootType(s, c.rootSchema)
+		if err != nil {
+			// a member of the key's type (@k: "@a | @m") is not registered
+			return lexeme.NewError(v.Lex, err)
+		}
 
 		if actualType != json.TypeString {
 			return lexeme.NewError(
@@ -240,22 +244,25 @@ func (c *checkSchema) ensureShortcutKeysAreValid(node *ischema.ObjectNode) error
 	return nil
 }
 
-func actualRootType(s, root *ischema.ISchema) json.Type {
+func actualRootType(s, root *ischema.ISchema) (json.Type, *errs.Err) {
 	return actualRootTypeVisited(s, root, make(map[*ischema.ISchema]struct{}, 2))
 }
 
-func actualRootTypeVisited(s, root *ischema.ISchema, visited map[*ischema.ISchema]struct{}) json.Type {
+func actualRootTypeVisited(
+	s, root *ischema.ISchema,
+	visited map[*ischema.ISchema]struct{},
+) (json.Type, *errs.Err) {
 	// A type defined through itself (@a: "@a | @b") has no actual root type;
 	// without this guard the resolution below never ends.
 	if _, ok := visited[s]; ok {
-		return json.TypeMixed
+		return json.TypeMixed, nil
 	}
 	visited[s] = struct{}{}
 	defer delete(visited, s) // only the current resolution path counts
 
 	t := s.RootNode().Type()
 	if t != json.TypeMixed {
-		return t
+		return t, nil
 	}
 
 	// mixed type for example: @aaa | @bbb
@@ -265,17 +272,21 @@ func actualRootTypeVisited(s, root *ischema.ISchema, visited map[*ischema.ISchem
 		for _, tn := range n.GetTypes() {
 			ss, err := root.Type(tn)
 			if err != nil {
-				return json.TypeMixed
+				// "type not found" is the answer, not "the key is not a string"
+				return json.TypeMixed, err
 			}
-			tt = actualRootTypeVisited(ss, root, visited)
+			tt, err = actualRootTypeVisited(ss, root, visited)
+			if err != nil {
+				return json.TypeMixed, err
+			}
 			types[tt] = struct{}{}
 		}
 		if len(types) == 1 { // all USER TYPES (example: @aaa | @bbb) have the same type (example: string)
-			return tt
+			return tt, nil
 		}
 	}
 
-	return json.TypeMixed
+	return json.TypeMixed, nil
 }
 
 func (c *checkSchema) collectAllowedJsonTypes(node ischema.Node, ss map[string]ischema.Type) {
